@@ -1,0 +1,68 @@
+//go:build verif
+
+// Verification contracts for the iceberg processor's poll cycle (C33; comment-only; read by /verif/govc).
+// This file contains no executable code.
+
+package processor
+
+// filterRecords keeps exactly the records above the committed offset, in order. It filters in place
+// (filtered := records[:0] shares the backing array): gsrc[j] is the index in the ORIGINAL slice of result element j
+// (strictly increasing), gdst[i] the index in the result of original element i when it is kept.
+//@ func filterRecords
+//@   ghost gsrc (Array Int Int) = arbitraryIntMap()
+//@   ghost gdst (Array Int Int) = arbitraryIntMap()
+//@   at append#1 before set gsrc = store(gsrc, len(filtered), rangeindex)
+//@   at append#1 before set gdst = store(gdst, rangeindex, len(filtered))
+//@   ensures [C33.filter_keeps_exactly_uncommitted] forall j int :: 0 <= j && j < len(result) ==> 0 <= gsrc[j] && gsrc[j] < len(records) && result[j] == old(records[gsrc[j]]) && old(records[gsrc[j]]).Offset > offset && (j > 0 ==> gsrc[j-1] < gsrc[j])
+//@   ensures [C33.filter_drops_nothing_uncommitted] forall i int :: 0 <= i && i < len(records) && old(records[i]).Offset > offset ==> 0 <= gdst[i] && gdst[i] < len(result) && gsrc[gdst[i]] == i
+//@   loop 1 invariant -1 <= rangeindex && rangeindex < len(records) && len(filtered) <= rangeindex + 1 && base(filtered) == base(records) && off(filtered) == off(records) && cap(filtered) == cap(records) && len(records) <= cap(records)
+//@   loop 1 invariant [C33.filter_unread_tail_untouched] forall i int :: rangeindex < i && i < len(records) ==> records[i] == old(records[i])
+//@   loop 1 invariant [C33.filter_keeps_exactly_uncommitted.inv] forall j int :: 0 <= j && j < len(filtered) ==> 0 <= gsrc[j] && gsrc[j] <= rangeindex && filtered[j] == old(records[gsrc[j]]) && old(records[gsrc[j]]).Offset > offset && (j > 0 ==> gsrc[j-1] < gsrc[j])
+//@   loop 1 invariant [C33.filter_drops_nothing_uncommitted.inv] forall i int :: 0 <= i && i <= rangeindex && old(records[i]).Offset > offset ==> 0 <= gdst[i] && gdst[i] < len(filtered) && gsrc[gdst[i]] == i
+
+// mapRecords: one sink record per decoded record, same order, same topic / partition / offset / timestamp / key / value / headers.
+//@ func mapRecords
+//@   ensures [C33.map_one_to_one] len(result) == len(records) && (forall i int :: 0 <= i && i < len(records) ==> result[i].Topic == records[i].Topic && result[i].Partition == records[i].Partition && result[i].Offset == records[i].Offset && result[i].Timestamp == records[i].Timestamp && sameSlice(result[i].Key, records[i].Key) && sameSlice(result[i].Value, records[i].Value))
+//@   loop 1 invariant -1 <= rangeindex && rangeindex < len(records) && len(out) == rangeindex + 1 && base(out) != base(records) && (forall i int :: 0 <= i && i <= rangeindex ==> out[i].Topic == records[i].Topic && out[i].Partition == records[i].Partition && out[i].Offset == records[i].Offset && out[i].Timestamp == records[i].Timestamp && sameSlice(out[i].Key, records[i].Key) && sameSlice(out[i].Value, records[i].Value))
+
+// havoc-only stubs (nothing assumed about their results)
+//@ func (p *Processor) startLeaseRenewal
+//@   nullable p
+//@   modular
+//@ func (p *Processor) resolveLfsRecords
+//@   modular
+//@ func validateRecords
+//@   nullable validator
+//@   modular
+
+// The poll cycle (same clauses as the SQL and skeleton processors, plus the LFS / schema steps between filter and
+// sink). gstage: how far the current segment got (LoadOffset 1, Decode 2, LFS 3, Write 4; negative = that step
+// failed). gcur: the record slice as it flows mapRecords -> filterRecords -> resolveLfsRecords -> validateRecords -> Write.
+//@ func (p *Processor) Run
+//@   at ListCompleted#1 after start
+//@   ghost gstage int = 0
+//@   ghost gcommitted int64 = 0
+//@   ghost gdecoded []decoder.Record = nil
+//@   ghost gcur []sink.Record = nil
+//@   ghost gwritten []sink.Record = nil
+//@   at LoadOffset#1 after set gstage = ite(isNilIface(ret1), 1, 0 - 1)
+//@   at LoadOffset#1 after set gcommitted = ret0.Offset
+//@   at Decode#1 before assert [C33.decodes_the_listed_segment] arg1 == seg.SegmentKey && arg2 == seg.IndexKey && arg3 == seg.Topic && arg4 == seg.Partition
+//@   at Decode#1 after set gstage = ite(isNilIface(ret1), 2, 0 - 2)
+//@   at Decode#1 after set gdecoded = ret0
+//@   at mapRecords#1 before assert [C33.maps_what_was_decoded] sameSlice(arg0, gdecoded)
+//@   at mapRecords#1 after set gcur = ret0
+//@   at filterRecords#1 before assert [C33.filter_bound_is_loaded_checkpoint] sameSlice(arg0, gcur) && arg1 == gcommitted
+//@   at filterRecords#1 after set gcur = ret0
+//@   at resolveLfsRecords#1 before assert [C33.lfs_gets_the_filtered_records] sameSlice(arg1, gcur)
+//@   at resolveLfsRecords#1 after set gstage = ite(isNilIface(ret1), 3, 0 - 3)
+//@   at resolveLfsRecords#1 after set gcur = ret0
+//@   at validateRecords#1 before assert [C33.validation_gets_the_filtered_records] sameSlice(arg1, gcur)
+//@   at validateRecords#1 after cut [C33.cut_after_validation] gstage >= 0
+//@   at validateRecords#1 after set gcur = ret0
+//@   at Write#1 before assert [C33.writes_everything_above_the_checkpoint] sameSlice(arg1, gcur) && len(arg1) > 0
+//@   at Write#1 before set gwritten = arg1
+//@   at Write#1 after set gstage = ite(isNilIface(ret0), 4, 0 - 4)
+//@   at CommitOffset#1 before assert [C33.commit_only_after_successful_write] gstage == 4
+//@   at CommitOffset#1 before assert [C33.commit_is_last_written_offset] len(gwritten) > 0 && arg1.Offset == gwritten[len(gwritten)-1].Offset && arg1.Topic == gwritten[len(gwritten)-1].Topic && arg1.Partition == gwritten[len(gwritten)-1].Partition
+//@   at loopstep#3 assert [C33.no_later_segment_after_a_failed_step] gstage >= 0
